@@ -241,7 +241,12 @@ func (x *Exec) dispatch(st *State, fr *Frame, callee *ssa.Function, contract *Co
 		}
 	}
 	if contract == nil {
+		if callee == nil {
+			// a function value the run knows nothing about is arbitrary code: it is its own callback
+			x.unknownCode = true
+		}
 		res := x.havocCall(st, fr, calleeName, sig, args, pos)
+		x.unknownCode = false
 		k(st, res)
 		return
 	}
@@ -390,6 +395,9 @@ func (x *Exec) havocCall(st *State, fr *Frame, name string, sig *types.Signature
 	x.note("UNSPECIFIED callee %s: all heaps havocked, result arbitrary", name)
 	x.havocAll(st)
 	x.advanceAllLogs(st, args, "", name)
+	if x.unknownCode {
+		x.advanceAllLogs(st, []Val{{typ: types.NewSignatureType(nil, nil, nil, nil, nil, false)}}, "", name+" (function value)")
+	}
 	res, _ := x.freshResult(st, sig, "r")
 	return res
 }
